@@ -66,6 +66,13 @@ class HelperFlow:
         else:
             raise Incomplete("%s: level objects of more than one level variable: %s" % (view.name, sorted(view.level_name(l) for l in levels)))
         self.looping = self.lv is not None and self.lv in view.locals
+        # the level window of one iteration is (V + boff, V + boff + 1) for the loop variable V: boff = 0 in
+        # `for(i = last; i > cur;) { --i; ...`, boff = -1 in `for(ii = last; ii > cur; --ii) { i = ii - 1; ...`
+        self.boff = 0
+        if self.looping:
+            ks = {l[2] for l in levels if l[0] == "v" and l[1] == self.lv}
+            if ks:
+                self.boff = min(ks)
         self.level_param = None
         self.flag_param = None
         for p in view.fn.params:
@@ -84,7 +91,7 @@ class HelperFlow:
         # tracked bool locals
         self.bool_locals = set()
         for d, var in view.locals.items():
-            if view.fn.type(var["t"]) == "bool":
+            if view.fn.type(var["t"]).replace("const ", "").strip() == "bool":
                 self.bool_locals.add(d)
 
     def describe(self, ev):
@@ -127,8 +134,8 @@ class HelperFlow:
         if self.fixed is not None:
             if lv == self.fixed:
                 return 0
-        elif lv[0] == "v" and lv[1] == self.lv and lv[2] in (0, 1):
-            return lv[2]
+        elif lv[0] == "v" and lv[1] == self.lv and lv[2] - self.boff in (0, 1):
+            return lv[2] - self.boff
         raise Incomplete("%s: level %s outside the window (i, i+1)" % (self.v.name, self.v.level_name(lv)))
 
     def vslot(self, o, what):
@@ -183,10 +190,13 @@ class HelperFlow:
                 continue
             for s in states:
                 for tgt in self.targets(b, succ, s):
+                    s2 = s
+                    if isinstance(tgt, tuple):
+                        tgt, s2 = tgt
                     if tgt == cfg.exit:
-                        self.at_exit(s)
+                        self.at_exit(s2)
                     else:
-                        work.append((tgt, s))
+                        work.append((tgt, s2))
         res = (self.final_recs if init_rec is not None else {k: frozenset(x) for k, x in self.posts.items()}, list(self.checks))
         self.cache[key] = res
         return res
@@ -200,6 +210,8 @@ class HelperFlow:
             self.final_recs.add(r0)
 
     def leave(self, r, sid):
+        if r.org == "below":
+            return
         self.posts[r.org].add(proj(r))
         if r.rhs == "RU":
             self.chk("E7.filter-rhs", self.rest_site, False, "the restricted right-hand side of the coarser level is not filter_def-ed with that level's filter before the level is left")
@@ -212,6 +224,30 @@ class HelperFlow:
     # ---- branch evaluation ------------------------------------------------------------------------
     def targets(self, b, succ, s):
         blk = self.v.cfg.blocks[b]
+        if blk.get("term") == "SwitchStmt" and blk.get("cond") is not None:
+            sel = self.v.value(self.v.byid.get(blk["cond"]) or {})
+            if is_this_member(sel, "_adapt_cgc"):
+                # switch(_adapt_cgc): in the fixed context only `case Fixed` (else `default`) is taken, in the adaptive
+                # context every case but `case Fixed` — the same decision as `_adapt_cgc != Fixed` in an if
+                labelled = []
+                for t in succ:
+                    if t is None:
+                        continue
+                    lab = self.v.byid.get(self.v.cfg.blocks[t].get("label")) if self.v.cfg.blocks[t].get("label") is not None else None
+                    name = None
+                    if lab is not None and lab.get("k") == "Case":
+                        cv = strip(lab.get("v") or {})
+                        name = (cv.get("qn") or cv.get("n") or "?").rsplit("::", 1)[-1]
+                    elif lab is not None and lab.get("k") == "Default":
+                        name = "default"
+                    labelled.append((t, name))
+                if all(nm is not None for t, nm in labelled) or sum(1 for t, nm in labelled if nm is None) == 1:
+                    # a successor without label is the fall-out of a switch without default
+                    labelled = [(t, nm or "default") for t, nm in labelled]
+                    has_fixed = any(nm == "Fixed" for t, nm in labelled)
+                    if self.ctx.get("adapt"):
+                        return [t for t, nm in labelled if nm != "Fixed"]
+                    return [t for t, nm in labelled if nm == ("Fixed" if has_fixed else "default")]
         if len(succ) == 2 and blk.get("cond") is not None and blk.get("term") != "SwitchStmt":
             atom = self.v.branch_atom(b)
             val = self.eval_atom(atom, s)
@@ -219,29 +255,92 @@ class HelperFlow:
                 return [succ[0]] if succ[0] is not None else []
             if val is False:
                 return [succ[1]] if succ[1] is not None else []
+            pk = self.presence_key(atom)
+            if pk is not None:
+                # a presence test of a level solver (`if(smoother)`): remember the outcome, so that a second test of the
+                # same pointer on the path (one `if` split into two, nested ifs) takes the same branch
+                key, positive = pk
+                out = []
+                for idx, t in enumerate(succ):
+                    if t is not None:
+                        truth = (idx == 0) == positive
+                        out.append((t, (s[0], s[1], frozenset(set(s[2]) | {(key, truth)}))))
+                return out
         return [x for x in succ if x is not None]
+
+    def presence_key(self, a):
+        """(key, positive) if the atom tests whether a level solver object (pre/post/peak smoother, coarse solver) is given"""
+        v = self.v
+        positive = True
+        a = strip(a)
+        while a.get("k") == "Un" and a.get("op") == "!":
+            positive = not positive
+            a = strip(a["e"])
+        node = None
+        if a.get("k") == "MCall" and a.get("n") == "operator bool":
+            node = a.get("obj")
+        elif a.get("k") == "Bin" and a.get("op") in ("!=", "=="):
+            for x, y in ((a["lhs"], a["rhs"]), (a["rhs"], a["lhs"])):
+                if strip(y).get("k") == "Null":
+                    node = x
+                    if a["op"] == "==":
+                        positive = not positive
+        elif a.get("k") == "Ref" and a.get("dk") == "local" and v.is_const_local(a["d"]):
+            r = self.presence_key(v.locals[a["d"]]["init"])
+            return (r[0], r[1] == positive) if r else None
+        elif a.get("k") in ("Construct", "TempObj") and len(a.get("a", [])) == 1:
+            r = self.presence_key(a["a"][0])
+            return (r[0], r[1] == positive) if r else None
+        if node is None:
+            return None
+        o = v.obj(node)
+        if o is not None and o[0] == "smo":
+            return ("smo", o[1], o[2]), positive
+        return None
 
     def eval_atom(self, a, s):
         v = self.v
         a = strip(a)
         k = a.get("k")
         r0 = s[0]
+        if k in ("MCall", "Bin", "Ref", "Construct", "TempObj"):
+            pk = self.presence_key(a) if not (k == "Bin" and a.get("op") in ("&&", "||")) else None
+            if pk is not None:
+                for key, val in s[2]:
+                    if key == pk[0]:
+                        return val == pk[1]
         if k == "Un" and a.get("op") == "!":
             x = self.eval_atom(a["e"], s)
             return None if x is None else (not x)
         if k == "Ref":
             if a.get("dk") == "param" and a["d"] == self.flag_param:
                 return self.ctx.get("flag")
-            if a.get("dk") == "local" and a["d"] in self.bool_locals:
+            if a.get("dk") == "local" and a["d"] in v.locals:
                 for d, val in s[2]:
                     if d == a["d"]:
                         return val
                 var = v.locals[a["d"]]
                 if not v.writes.get(a["d"]) and var.get("init") is not None:
+                    # a named condition (`const bool skip = !cur_smooth && (i == cur_lvl);`) is what it names
                     return self.eval_atom(var["init"], s)
+                # a written local that is not tracked: its value is data unless it is computed from the level index, the
+                # smoothing flag or the correction mode
+                srcs = [var.get("init")] + [w.get("rhs") for w in v.writes.get(a["d"], []) if w.get("k") == "Assign"]
+                for src in srcs:
+                    for x in walk(src or {}):
+                        if (x.get("k") == "Ref" and x.get("d") is not None and x.get("d") in (self.lv, self.flag_param)) or is_this_member(x, "_adapt_cgc"):
+                            raise Incomplete("%s: condition on the local %s, which is computed from the level index / smoothing flag / correction mode along several paths" % (v.name, a.get("n")))
                 return None
         if k == "Bool":
             return bool(a["v"])
+        if k == "Bin" and a.get("op") in ("&&", "||"):
+            # a named compound condition (`const bool smooth_here = cur_smooth || (i > cur_lvl);`): three-valued logic
+            x, y = self.eval_atom(a["lhs"], s), self.eval_atom(a["rhs"], s)
+            if a["op"] == "&&":
+                return False if (x is False or y is False) else (True if (x is True and y is True) else None)
+            return True if (x is True or y is True) else (False if (x is False and y is False) else None)
+        if k in ("Construct", "TempObj") and len(a.get("a", [])) == 1:
+            return self.eval_atom(a["a"][0], s)
         if k == "Bin" and a.get("op") in ("<", ">", "<=", ">=", "==", "!="):
             l, r = v.value(a["lhs"]), v.value(a["rhs"])
             op = a["op"]
@@ -263,14 +362,23 @@ class HelperFlow:
             # level index against its bounds
             if self.lv is not None:
                 for x, y, o in ((l, r, op), (r, l, {"<": ">", ">": "<", "<=": ">=", ">=": "<="}.get(op, op))):
-                    if x.get("k") == "Ref" and x.get("d") == self.lv and self.looping:
+                    xl = v.level(x) if self.looping else None
+                    if xl is not None and xl[0] == "v" and xl[1] == self.lv:
                         if r0 is None:
                             raise Incomplete("%s: level index compared before it is initialised" % v.name)
                         bound = v.level(y)
+                        if bound is not None and (self.boff - xl[2]):
+                            # (V + k) op B  ==  (V + boff) op (B + boff - k): the window origin against the shifted bound
+                            bound = bound[:-1] + (bound[-1] + self.boff - xl[2],)
+                        # x < b+1 == x <= b,  x <= b-1 == x < b,  x > b-1 == x >= b,  x >= b+1 == x > b
+                        if bound is not None and bound[-1] in (1, -1):
+                            o2 = {("<", 1): "<=", ("<=", -1): "<", (">", -1): ">=", (">=", 1): ">"}.get((o, bound[-1]))
+                            if o2 is not None:
+                                o, bound = o2, bound[:-1] + (0,)
                         if bound == ("last", 0):
                             rel = "<" if r0.org != "crs" else "=="       # V < last  unless V is the last level
                         elif bound is not None and bound[0] == "v" and bound[1] == self.level_param and bound[2] == 0:
-                            rel = "==" if r0.org == "first" else ">"
+                            rel = "==" if r0.org == "first" else ("<" if r0.org == "below" else ">")
                         else:
                             raise Incomplete("%s: level index compared with %s" % (v.name, render(y)))
                         return {"<": rel == "<", "<=": rel in ("<", "=="), ">": rel == ">", ">=": rel in (">", "=="),
@@ -308,6 +416,15 @@ class HelperFlow:
             if k == "Decl" and any(x["d"] == self.lv for x in n.get("vars", [])):
                 var = v.locals[self.lv]
                 init = v.level(var.get("init")) if var.get("init") is not None else None
+                if init is not None:
+                    init = init[:-1] + (init[-1] + self.boff,)       # first window origin
+                if init == ("last", -1):
+                    # window (last-1, last): the level above the coarsest one and the coarsest one
+                    outs = []
+                    for a in self.fork_new(["other", "first"]):
+                        for b in self.fork_new(["crs"]):
+                            outs.append((a, b, bools))
+                    return outs
                 if init is not None and init[0] == "v" and init[1] == self.level_param and init[2] == 0:
                     outs = []
                     for a in self.fork_new(["first"]):
@@ -327,6 +444,7 @@ class HelperFlow:
                         step = 1 if n["op"] == "+=" else -1
                     if step is None or r0 is None:
                         raise Incomplete("%s: level index modified by %s" % (v.name, render(n)))
+                    bools = frozenset(x for x in bools if not (isinstance(x[0], tuple) and x[0][0] == "smo"))
                     if step == 1:
                         self.leave(r0, e)
                         if r1 is None:
@@ -336,8 +454,12 @@ class HelperFlow:
                         return [(r1, b, bools) for b in self.fork_new(["other", "crs"])]
                     if r1 is not None:
                         self.leave(r1, e)
-                    if r0.org == "first":
+                    if r0.org == "below":
                         raise Incomplete("%s: descending below cur_lvl" % v.name)
+                    if r0.org == "first":
+                        # the index passes below cur_lvl (the step comes before the loop test): no level there, the loop
+                        # test must end the loop
+                        return [(entry_rec("below", ("S", "O")), r0, bools)]
                     return [(a, r0, bools) for a in self.fork_new(["other", "first"])]
         # bool locals
         if k == "Decl":
@@ -366,7 +488,7 @@ class HelperFlow:
         recs = [r0, r1]
 
         def get(i):
-            if recs[i] is None:
+            if recs[i] is None or recs[i].org == "below":
                 raise Incomplete("%s: level window slot %d used while empty (%s)" % (v.name, i, self.site.get(e)))
             return recs[i]
 
@@ -576,7 +698,7 @@ class Composer:
             return (TOP, OUT, PK, INN, posts["crs"] or CRS) if not self.single else (posts["crs"], OUT, PK, INN, posts["crs"])
         lv = ev.get("level")
         is_top = lv == ("top", 0)
-        is_p = lv is not None and lv[0] == "v" and lv[1] == self.pvar and lv[2] == 0
+        is_p = lv is not None and lv[0] == "v" and lv[1] == self.pvar and lv[2] == getattr(self.v, "poff", 0)
         if not (is_top or is_p):
             return regs      # reported by E14.cycle-shape
         if self.single:
